@@ -262,6 +262,31 @@ impl Prop for C05 {
 				break;
 			}
 		}
+		// once more through a caller whose types do not declare every record field (the undeclared ones are skipped by
+		// the crate: skipping is decoding too): what is kept must be what was written, then end of stream
+		if !out.failed() && matches!(env.resolve(&spec.schema), crate::ast::Ty::Record { .. }) {
+			for kind in kinds.iter().filter(|k| matches!(k, RKind::Slice | RKind::Cursor | RKind::Sim(_))).take(3) {
+				container::READ_MASK.with(|m| m.set(Some(scn.rk_seed | 1)));
+				let r = container::read_file(&file, &env, &spec.schema, kind, &[], budget);
+				container::READ_MASK.with(|m| m.set(None));
+				out.evals += 1;
+				out.count("read_with_partly_ignoring_target", 1);
+				let stream = if *kind == RKind::Slice { "slice" } else { "stream" };
+				if let Some(p) = &r.panicked {
+					out.fail(format!("C05:read-panic:partly-ignoring-target:{}", panic_site(p)), format!("{}: {p}", kind.label()));
+					break;
+				}
+				let got = r.values();
+				let clean = r.ctor_err.is_none() && !r.items.iter().any(|i| matches!(i, Item::Err { .. })) && !r.call_budget_exhausted;
+				if !clean || got.len() != model.len() || got.iter().zip(&model).any(|(a, b)| !crate::val::eq_modulo_mask(a, b)) {
+					out.fail(
+						format!("C05:read-mismatch:partly-ignoring-target:{}:{stream}", spec.codec.name()),
+						format!("{}: shape {} (expected {} values); first difference at {:?}", kind.label(), r.shape(), model.len(), got.iter().zip(&model).position(|(a, b)| !crate::val::eq_modulo_mask(a, b))),
+					);
+					break;
+				}
+			}
+		}
 		out.digest = digest.get();
 		out
 	}
